@@ -334,10 +334,25 @@ func c11CertText(ctx *xeCtx, c c11Crt, ws bool) string {
 }
 
 // c11AddX509 writes the X509Data the descriptor describes under el's KeyInfo (created, in front of
-// CipherData, when there is none).
-func c11AddX509(ctx *xeCtx, el *etree.Element, x c11X509) {
+// CipherData, when there is none): behind the other children, or - slot >= 0 - in front of the child
+// that stands at that place (KeyInfo as a sequence of items: the place of the x509 item).
+func c11AddX509(ctx *xeCtx, el *etree.Element, x c11X509, slot int) {
 	if !x.Data {
 		return
+	}
+	if slot >= 0 {
+		if ki := xeChild(el, "KeyInfo"); ki != nil && slot < len(ki.Child) {
+			before := len(ki.Child)
+			c11AddX509(ctx, el, x, -1)
+			added := append([]etree.Token{}, ki.Child[before:]...)
+			for _, t := range added {
+				ki.RemoveChild(t)
+			}
+			for i, t := range added {
+				ki.InsertChildAt(slot+i, t)
+			}
+			return
+		}
 	}
 	ki := xeChild(el, "KeyInfo")
 	if ki == nil {
@@ -402,7 +417,13 @@ func c11BuildEl(ctx *xeCtx, e xeEl, x509 []c11X509) *etree.Element {
 	root := ctx.build(stripped, tag)
 	el, lvl := root, &e
 	for i := 0; i < len(x509) && el != nil; i++ {
-		c11AddX509(ctx, el, x509[i])
+		slot := -1
+		for j, it := range lvl.Ki {
+			if it.K == "x509" {
+				slot = j
+			}
+		}
+		c11AddX509(ctx, el, x509[i], slot)
 		if refBlockByName(lvl.Em) == nil || len(lvl.Eks) == 0 {
 			break
 		}
